@@ -72,6 +72,35 @@ CHECKS = {
         "Trusted: the rule as stated in the property. Blank-padded DISPLAYBPM spellings are accepted either way; chosen source has a non-empty BPMS for the display clause.",
         "DESIGN.md 5 (C15)",
     ),
+
+    "C01": (
+        "model_checking",
+        "explicit-state exploration of the real SM serializer/parser: exhaustive value strings in every context, and breadth-first edit histories with state matching (content, order, string identity) in lock-step with a dictionary model; round-trip oracle in every state",
+        "Every string of length <=4 (quick) / <=6 (thorough) over the MSD metacharacter alphabet in 12 contexts (value, ATTACKS, DISPLAYBPM, key, chart fields, note data, extra components), thorough also every BMP code point and awkward pairs; all edit histories of depth <=3/4 over 38 operations from the bare object, the empty simfile, blank() and the corpus file: in every state serialize -> strict parse gives the same items/charts/extra components, same text again, accepted and auto-detected, documented NOTES/ATTACKS parameter structure.",
+        "Trusted: msdparser as tokenizer/escaper (its escaping gaps are detected operationally, must match a listed pattern, are excluded and reported as known findings); mc/models/msd.py.",
+        "DESIGN.md 5 (C01)",
+    ),
+    "C02": (
+        "model_checking",
+        "explicit-state exploration of the real SSC serializer/parser: exhaustive value strings in SSC contexts, exhaustive chart alphabet (key orderings x NOTES/NOTES2 position x values incl. None, interned strings, equal copies and the same object), breadth-first edit histories with state matching incl. string identity",
+        "Value strings as C01 in 8 SSC contexts; every ordering of <=3/4 chart keys with NOTES or NOTES2 at every position and every value kind (about 10^5..10^6 charts); edit histories of depth <=3/4 over 42 operations from bare, empty, blank and corpus simfiles: reload gives the same properties with note data last, second serialization identical, nothing dropped or renamed by value equality/identity, NOTEDATA..notes parameter structure, SSCChart.from_str(str(chart)) round trip.",
+        "Trusted: msdparser (gaps excluded operationally); mc/models/msd.py. States whose charts do not have exactly one of NOTES/NOTES2 are explored but not judged.",
+        "DESIGN.md 5 (C02)",
+    ),
+    "C03": (
+        "model_checking",
+        "exhaustive enumeration of texts (parameter-piece sequences, symbol strings) x strictness x every entry point of the real loader (strings, streams, iterators, real files on MemoryFS and the native filesystem under eight names, class constructors, stand-alone chart parsers), compared with the documented rules applied to the trusted tokenizer's parameters",
+        "Every sequence of <=3/4 of 25 parameter pieces (also behind a BOM), every text of <=5/6 symbols over MSD metacharacters, x strict True/False x ~50 entry-point/name combinations; SSCChart.from_str on 5 heads x <=3 of 11 pieces; SMChart.from_msd/from_str on all component lists of length <=8; corpus files and variants. The loaded type, ordered items and charts (or the exception class) must equal the model's for every entry point.",
+        "Trusted: msdparser.parse_msd as tokenizer; mc/models/msd.py as the documented rules; a key-only ATTACKS/DISPLAYBPM may be None or ''; texts ending in an unpaired backslash (tokenizer assertion) are excluded and counted.",
+        "DESIGN.md 5 (C03)",
+    ),
+    "C04": (
+        "model_checking",
+        "exhaustive enumeration of texts (as C03) and systematic corpus mutations (every truncation / line deletion on a stride, splices) through the real load -> save -> load -> save cycle under three loaders and both strictness values",
+        "For every text the loader accepts (auto-detected and forced SM/SSC, strict and lenient): str() must not raise, the strict reload has the same items in order and the same charts (SSC note data last), the second serialization is byte-identical and a second cycle is a no-op; corpus: whole files, truncations and deletions at line boundaries (stride 40 quick / every line thorough), splices between all file pairs.",
+        "Trusted: msdparser (gaps excluded operationally and counted); SSC charts without note data are outside the domain.",
+        "DESIGN.md 5 (C04)",
+    ),
 }
 
 PLANNED = "check not built yet (work in progress this round; design in DESIGN.md section 5)"
